@@ -117,15 +117,24 @@ def native_response(chk, w, extra=()):
     base = tempfile.mkdtemp(prefix='c10_')
     try:
         root = os.path.join(base, 'root'); os.makedirs(root)
-        for path, kind, content in w.get('fs', []):
+        links = []
+        for ent_ in w.get('fs', []):
+            path, kind, content = ent_[0], ent_[1], ent_[2]
             rel = path[len('/r'):] if path.startswith('/r') else '/' + path
             real = posixpath.normpath(root + rel)
             if not real.startswith(root): continue
+            if len(ent_) > 3 and kind != 0:
+                links.append((real, ent_[3])); continue          # a symbolic link: created after the regular entries
             try:
                 if kind == 2: os.makedirs(real, exist_ok=True)
                 elif kind == 1:
                     os.makedirs(os.path.dirname(real), exist_ok=True)
                     if not os.path.isdir(real): open(real, 'wb').write(bytes.fromhex(content))
+            except OSError: pass
+        for real, tgt in links:
+            try:
+                os.makedirs(os.path.dirname(real), exist_ok=True)
+                if not os.path.lexists(real): os.symlink(tgt, real)
             except OSError: pass
         reqb = bytes.fromhex(w['request'])
         args = [reqb, len(reqb)] + list(extra)
